@@ -37,6 +37,9 @@ def falsy : Tree → Bool
   | .scalar (.int i) => i == 0
   | .scalar (.num r) => r == 0
   | .scalar (.str s) => s.isEmpty
+  | .scalar (.npbool b) => !b       -- numpy scalars: same truth value as their `.item()`
+  | .scalar (.npint _ i) => i == 0
+  | .scalar (.npnum _ r) => r == 0
   | .seq .array _ => false          -- `not ndarray` is not a plain truth test; never reached with option dicts
   | .seq _ .nil => true
   | .seq _ _ => false
